@@ -138,6 +138,7 @@ func init() {
 		gc := atoi(m["gc"], 1) != 0
 		autow := atoi(m["auto"], 1) != 0
 		maxw := atoi(m["maxw"], 0) // max writes per transaction (0: unlimited)
+		deflevel := atoi(m["deflevel"], 0) != 0 // also Begin() without a level
 		keys := keyNames[:nk]
 		f := &seq.Family{Opt: seq.Options{Slots: slots, ObsKeys: append(append([]string{}, keys...), neverKey), Spec: spec()}}
 		if m["obs"] == "auto" {
@@ -153,6 +154,9 @@ func init() {
 			if s := md.FreeSlot(); s >= 0 && left > 1 {
 				for _, l := range lv {
 					out = append(out, seq.Op{Kind: seq.Begin, Actor: s, Level: l})
+				}
+				if deflevel {
+					out = append(out, seq.Op{Kind: seq.Begin, Actor: s, Level: model.RC, DefaultLevel: true})
 				}
 			}
 			for _, s := range md.OpenSlots() {
